@@ -76,6 +76,7 @@ func runAll(spec *Spec, pilot Exec, N int, outDir string) ([]Exec, []string) {
 		panic(err)
 	}
 	procRes := make([]Exec, nProc)
+	procMode := make([]int, nProc)
 	var wg sync.WaitGroup
 	sem := make(chan struct{}, 6)
 	for i := 0; i < nProc; i++ {
@@ -86,7 +87,9 @@ func runAll(spec *Spec, pilot Exec, N int, outDir string) ([]Exec, []string) {
 			defer func() { <-sem }()
 			dir := filepath.Join(outDir, fmt.Sprintf("%s.w%d", spec.Name, i))
 			os.MkdirAll(dir, 0o755)
-			cmd := exec.Command(os.Args[0], "replay_worker", "-seed", "0", "-n", "0", "-out", dir, "-replay", specPath)
+			mode := []int{ModePlain, ModeTwin, ModeRestart}[i%3]
+			procMode[i] = mode
+			cmd := exec.Command(os.Args[0], "replay_worker", "-seed", "0", "-n", fmt.Sprint(mode), "-out", dir, "-replay", specPath)
 			cmd.Stdout, cmd.Stderr = nil, nil
 			if err := cmd.Run(); err != nil {
 				procRes[i] = Exec{Panic: "worker-process-failed:" + err.Error()}
@@ -106,14 +109,17 @@ func runAll(spec *Spec, pilot Exec, N int, outDir string) ([]Exec, []string) {
 			os.RemoveAll(dir)
 		}(i)
 	}
+	// in this process, one after the other: whatever an earlier instance (the pilot included) left in process
+	// memory is still there for the next one
 	for i := 0; i < nIn; i++ {
-		execs = append(execs, Execute(spec))
-		how = append(how, "inproc")
+		mode := []int{ModePlain, ModeTwin, ModeRestart}[i%3]
+		execs = append(execs, ExecuteMode(spec, mode))
+		how = append(how, "inproc."+modeNames[mode])
 	}
 	wg.Wait()
 	for i := range procRes {
 		execs = append(execs, procRes[i])
-		how = append(how, "process")
+		how = append(how, "process."+modeNames[procMode[i]])
 	}
 	return execs, how
 }
@@ -197,6 +203,11 @@ func mainHistory(seed uint64, rng *Rng, blocks int) *Pilot {
 		}
 		if b%5 == 0 {
 			p.FailingDistribution()
+		}
+		// a rejected transaction whose first message edited a shared decoded object (registry entry, admin table,
+		// whitelist, policy); later blocks read those objects
+		if b == 6 || p.R.Chance(1, 3) {
+			p.RolledBackEdit()
 		}
 		k := 3 + p.R.Intn(6)
 		for i := 0; i < k && len(ps) > 0; i++ {
